@@ -10,7 +10,8 @@
 (* result with the union Level A prescribes.                               *)
 (* Deviations: "NoNilCheck" (pinned: nil dictionary dereferenced),         *)
 (* "NoFirstLookup" (pinned: no lookup when the first field is ""),         *)
-(* "RememberOnlyResolved" (lastField only updated when the field exists).  *)
+(* "RememberOnlyResolved" (lastField only updated when the field exists),  *)
+(* "OverCountSkip" (a saturation shortcut fed by an over-counting OrInto).  *)
 (***************************************************************************)
 EXTENDS Integers, Sequences, FiniteSets, TLC
 
@@ -36,12 +37,22 @@ Loop(i, st) ==
              lookup == (IF "NoFirstLookup" \in Dev THEN FALSE ELSE i = 1) \/ f # st.last
              d == IF lookup THEN DictOf(f) ELSE st.dict
              last2 == IF lookup /\ ("RememberOnlyResolved" \notin Dev \/ d # "nil") THEN f ELSE st.last
+             \* deviation "OverCountSkip": a per-field hit counter (1 per 1-hit term, even when its document
+             \* is already matched) lets the loop skip the rest of a "saturated" field
+             hits0 == IF lookup THEN 0 ELSE st.hits
+             fieldDocs == IF d = "nil" THEN 0 ELSE Cardinality(UNION {Index[<<d, x>>] : x \in Terms})
+             skip == "OverCountSkip" \in Dev /\ d # "nil" /\ hits0 >= fieldDocs /\ fieldDocs > 0
+             gain == IF d = "nil" THEN 0
+                     ELSE IF Cardinality(Index[<<d, t>>]) = 1 THEN 1                       \* 1-hit: flat 1
+                     ELSE Cardinality(Index[<<d, t>>] \ st.acc)
          IN IF d = "nil"
             THEN IF "NoNilCheck" \in Dev THEN [st EXCEPT !.crash = TRUE]
-                 ELSE Loop(i + 1, [st EXCEPT !.last = last2, !.dict = d])         \* contributes nothing
-            ELSE Loop(i + 1, [last |-> last2, dict |-> d, acc |-> st.acc \cup Index[<<d, t>>], crash |-> FALSE])
+                 ELSE Loop(i + 1, [st EXCEPT !.last = last2, !.dict = d, !.hits = 0])         \* contributes nothing
+            ELSE IF skip THEN Loop(i + 1, [st EXCEPT !.last = last2, !.dict = d, !.hits = hits0])
+            ELSE Loop(i + 1, [last |-> last2, dict |-> d, acc |-> st.acc \cup Index[<<d, t>>], crash |-> FALSE,
+                              hits |-> hits0 + gain])
 
-Run == Loop(1, [last |-> "", dict |-> "nil", acc |-> {}, crash |-> FALSE])
+Run == Loop(1, [last |-> "", dict |-> "nil", acc |-> {}, crash |-> FALSE, hits |-> 0])
 
 Init == /\ list \in UNION {[1..n -> Pairs] : n \in 0..MaxTerms}
         /\ res = "pending"
@@ -54,6 +65,6 @@ ExactUnion == ~Run.crash => Run.acc = Expected
 
 McIndex == [p \in {"a", "b"} \X {"x", "y", "z"} |->
               IF p = <<"a", "x">> THEN {0, 1} ELSE IF p = <<"a", "y">> THEN {2}
-              ELSE IF p = <<"b", "x">> THEN {1, 3} ELSE {}]
+              ELSE IF p = <<"b", "x">> THEN {1} ELSE IF p = <<"b", "y">> THEN {1, 3} ELSE {}]
 
 =============================================================================
